@@ -307,6 +307,9 @@ struct World
   std::unique_ptr<sdkmet::SyncMetricStorage> storage;
   std::vector<std::shared_ptr<sdkmet::CollectorHandle>> direct_collectors;
   std::unique_ptr<sdkmet::AttributesProcessor> direct_proc;
+  // collections of different readers are serialised by the SDK (MeterContext::meter_lock_ is
+  // held across Meter::Collect); the direct-storage stratum reproduces that
+  std::mutex collect_m;
 };
 
 std::string instr_name(int i)
@@ -468,6 +471,7 @@ void do_collect(World &w, int r)
     if (w.storage)
     {
       // direct storage: one stream, the stub collector handles are the readers
+      std::lock_guard<std::mutex> serialise(w.collect_m);
       nostd::span<std::shared_ptr<sdkmet::CollectorHandle>> cols(w.direct_collectors.data(),
                                                                  w.direct_collectors.size());
       auto now = std::chrono::system_clock::now();
